@@ -1,6 +1,7 @@
 import Mp4ff.Model.BoxTree
 import Mp4ff.Expect.Facts
 import Mp4ff.Lemmas.LayoutThms
+import Mp4ff.Expect.Transcribed
 /-!
 # C02 — Size() equals bytes written equals the header size field, at every level
 -/
@@ -63,5 +64,10 @@ theorem header_constants : Generated.const_boxHeaderSize = 8 ∧ Generated.const
 
 example : (Tree.node [0x6d, 0x6f, 0x6f, 0x76] [Tree.leaf [0x6d, 0x76, 0x68, 0x64] [1, 2, 3], Tree.node [0x74, 0x72, 0x61, 0x6b] []]).WF := by
   simp [Tree.WF, WFs]
+
+/-- the Go functions the models of this property transcribe (committed table `spec/transcribed.json`, checked against
+    the current source by the extractor on every run) all still exist -/
+theorem model_sources_exist :
+    (["Aac.lean", "Bits.lean", "BoxTree.lean", "Boxes.lean"] : List String).all Mp4ff.Expect.presentFor = true := by decide +kernel
 
 end Mp4ff.BoxTree.C02
